@@ -26,6 +26,7 @@ type c20Case struct {
 	Filter map[string]string // pre-existing filter.lfs.* values in the scope under test
 	Scope  string            // global | local
 	Cmds   [][]string
+	Other  map[string]string // pre-existing filter.lfs.* values in the OTHER scope (local when Scope is global, global when local)
 }
 
 func (cs c20Case) encode() string {
@@ -42,15 +43,32 @@ func (cs c20Case) encode() string {
 	for _, c := range cs.Cmds {
 		cm = append(cm, strings.Join(c, "+"))
 	}
-	return fmt.Sprintf("C20 case %s %s [%s] %s", cs.Scope, strings.Join(hs, ","), strings.Join(fk, ","), strings.Join(cm, ";"))
+	e := fmt.Sprintf("C20 case %s %s [%s] %s", cs.Scope, strings.Join(hs, ","), strings.Join(fk, ","), strings.Join(cm, ";"))
+	if len(cs.Other) > 0 {
+		var ok []string
+		for k, v := range cs.Other {
+			ok = append(ok, k+"="+hx([]byte(v)))
+		}
+		sort.Strings(ok)
+		e += " other[" + strings.Join(ok, ",") + "]"
+	}
+	return e
 }
 
 func decodeC20Case(s string) (c20Case, bool) {
 	f := strings.Fields(s)
-	if len(f) != 6 {
+	if len(f) != 6 && len(f) != 7 {
 		return c20Case{}, false
 	}
-	cs := c20Case{Scope: f[2], Filter: map[string]string{}}
+	cs := c20Case{Scope: f[2], Filter: map[string]string{}, Other: map[string]string{}}
+	if len(f) == 7 {
+		ol := strings.TrimSuffix(strings.TrimPrefix(f[6], "other["), "]")
+		for _, kv := range strings.Split(ol, ",") {
+			if p := strings.SplitN(kv, "=", 2); len(p) == 2 {
+				cs.Other[p[0]] = string(unhx(p[1]))
+			}
+		}
+	}
 	for _, h := range strings.Split(f[3], ",") {
 		p := strings.SplitN(h, ":", 2)
 		if len(p) != 2 {
@@ -141,6 +159,7 @@ type c20Snap struct {
 	Hooks  []string // "absent" or mode:sha
 	Bytes  [][]byte
 	Filter map[string]string
+	Other  map[string]string // filter.lfs.* of the other scope
 }
 
 func c20Snapshot(dir, cfgFile, scope string) c20Snap {
@@ -167,6 +186,18 @@ func c20Snapshot(dir, cfgFile, scope string) c20Snap {
 		p := strings.SplitN(l, " ", 2)
 		if len(p) == 2 {
 			s.Filter[p[0]] = p[1]
+		}
+	}
+	s.Other = map[string]string{}
+	oargs := []string{"config", "--file", cfgFile, "--get-regexp", `^filter\.lfs\.`}
+	if scope == "global" {
+		oargs = []string{"config", "--local", "--get-regexp", `^filter\.lfs\.`}
+	}
+	out, _ = runIn(dir, []string{"GIT_CONFIG_GLOBAL=" + cfgFile}, "git", oargs...)
+	for _, l := range strings.Split(out, "\n") {
+		p := strings.SplitN(l, " ", 2)
+		if len(p) == 2 {
+			s.Other[p[0]] = p[1]
 		}
 	}
 	return s
@@ -205,6 +236,29 @@ func c20(c *Ctx) {
 			case 2:
 				cs.Filter[k] = map[string]string{"filter.lfs.clean": "my-clean %f", "filter.lfs.smudge": "cat", "filter.lfs.process": "my-filter-process", "filter.lfs.required": "false"}[k]
 			}
+		}
+		// cross-scope state: the scope that is NOT installed into holds values of its own (an old
+		// `install --local`, a hand-written global wrapper): they must neither be touched nor be
+		// mistaken for the value of the scope under test
+		cs.Other = map[string]string{}
+		if r.Chance(35) {
+			for k, cur := range c20Current {
+				switch r.Intn(5) {
+				case 0:
+					cs.Other[k] = cur
+				case 1:
+					cs.Other[k] = map[string]string{"filter.lfs.clean": "git-lfs clean %f", "filter.lfs.smudge": "git-lfs smudge %f", "filter.lfs.process": "git-lfs filter", "filter.lfs.required": "true"}[k]
+				case 2:
+					cs.Other[k] = map[string]string{"filter.lfs.clean": "other-clean %f", "filter.lfs.smudge": "other-cat", "filter.lfs.process": "other-filter-process", "filter.lfs.required": "false"}[k]
+				}
+			}
+		}
+		if r.Chance(12) {
+			// directed: a custom value in the scope under test is shadowed / accompanied by an
+			// upgradeable or current value of the same key in the other scope
+			k := Pick(r, []string{"filter.lfs.clean", "filter.lfs.smudge", "filter.lfs.process"})
+			cs.Filter[k] = "wrapper-" + k[11:] + " %f"
+			cs.Other[k] = Pick(r, []string{c20Current[k], map[string]string{"filter.lfs.clean": "git-lfs clean %f", "filter.lfs.smudge": "git-lfs smudge %f", "filter.lfs.process": "git-lfs filter"}[k]})
 		}
 		nc := 1 + r.Intn(4)
 		for k := 0; k < nc; k++ {
@@ -285,6 +339,17 @@ func runC20Case(c *Ctx, ci int, cs c20Case) (mlines, mimpl []string) {
 			nontrivial = true
 		}
 	}
+	for k, v := range cs.Other {
+		if cs.Scope == "global" {
+			runIn(dir, env, "git", "config", "--local", k, v)
+		} else {
+			runIn(dir, env, "git", "config", "--file", cfgFile, k, v)
+		}
+		nontrivial = true
+	}
+	if len(cs.Other) > 0 {
+		c.R.Count("case.cross-scope")
+	}
 	c.R.Eval(enc, nontrivial)
 	fail := func(what, impl string) {
 		c.R.Add(Finding{Kind: "oracle", What: what, Case: clip(enc, 3000), Impl: clip(impl, 500)})
@@ -318,6 +383,10 @@ func runC20Case(c *Ctx, ci int, cs c20Case) (mlines, mimpl []string) {
 			if force && cmd[0] != "uninstall" {
 				userOwned[i] = false
 			}
+		}
+		// the scope that the command does not address is never written
+		if fmt.Sprint(before.Other) != fmt.Sprint(after.Other) {
+			fail(fmt.Sprintf("`git lfs %s` changed filter.lfs.* settings in a configuration scope it was not asked to change", strings.Join(cmd, " ")), fmt.Sprint(before.Other)+" -> "+fmt.Sprint(after.Other))
 		}
 		if !force && cmd[0] == "install" {
 			for k, v := range before.Filter {
